@@ -247,6 +247,8 @@ def stub_momd(self, mom=0, theta=90.0):
 
 
 def stub_wavenuma(freq, water_depth):
+    if isinstance(freq, X.DA) and isinstance(water_depth, X.DA):
+        return X.da_binary(lambda f, h: s_wavenuma(SYM, f, h), freq, water_depth, "f")
     if isinstance(freq, X.DA):
         return freq._da_unop(lambda s: s_wavenuma(SYM, s, water_depth), "f")
     return s_wavenuma(SYM, freq, water_depth)
